@@ -13,9 +13,10 @@ use std::rc::Rc;
 
 fn run_shape(fm: &FragMovie, fi: usize, r: &Run) -> String {
     format!(
-        "f{} base{:?} tfhdD{} per{} cts{} v{} off{}{} n{} trexD{}",
+        "f{} base{:?}{} tfhdD{} per{} cts{} v{} off{}{} n{} trexD{}",
         fi.min(2),
         r.base,
+        if r.also_default_base_flag { "+dbim" } else { "" },
         r.tfhd_duration.is_some() as u8,
         r.per_sample_durations as u8,
         r.cts_present as u8,
@@ -150,7 +151,7 @@ fn lattice(args: &Args, rep: &mut Report) {
                         let bdt = if v1 { (1u64 << 32) + 7 + t0 } else { 1000 + t0 };
                         fragments.push(Fragment {
                             runs: vec![Run { track: 0, samples, base, tfhd_duration: if tfhd_d { Some(333) } else { None }, per_sample_durations: per, cts_present: cts, tfdt_v1: v1,
-                                base_decode_time: bdt, data_offset: if off { Some(5) } else { None }, negative_offset: neg, tfhd_default_size: false, trun_sample_flags: false, first_sample_flags: false }],
+                                base_decode_time: bdt, data_offset: if off { Some(5) } else { None }, negative_offset: neg, tfhd_default_size: false, trun_sample_flags: false, first_sample_flags: false, also_default_base_flag: bits & 1 != 0 && base == BaseMode::Explicit }],
                             moof_large: false,
                         });
                         t0 += 5000;
@@ -200,7 +201,7 @@ pub fn run(args: &Args) -> i32 {
         fm.movie.tracks.push(t2);
         fm.trex = vec![(10, 0, 0), (20, 0, 0)];
         let mk = |track: usize, rng: &mut Rng| Run { track, samples: (0..3).map(|k| MSample { size: 4, fill: rng.next_u64(), delta: 0, cts: 0, sync: k == 0 }).collect(), base: BaseMode::DefaultBaseIsMoof,
-            tfhd_duration: None, per_sample_durations: false, cts_present: false, tfdt_v1: false, base_decode_time: 0, data_offset: Some(0), negative_offset: false, tfhd_default_size: false, trun_sample_flags: false, first_sample_flags: false };
+            tfhd_duration: None, per_sample_durations: false, cts_present: false, tfdt_v1: false, base_decode_time: 0, data_offset: Some(0), negative_offset: false, tfhd_default_size: false, trun_sample_flags: false, first_sample_flags: false, also_default_base_flag: false };
         fm.fragments = vec![Fragment { runs: vec![mk(0, &mut rng), mk(1, &mut rng)], moof_large: false }];
         fm.styp = false;
         eval("probe:K2", &fm, &mut rep, args);
